@@ -63,3 +63,47 @@ def module(exp_id, splitters, cond_ids, key, body_block, depth_of_body, exposed)
     return (TOPLINE + "def %s(%s):\n" % (exp_id, sig) +
             "\tdef %s(%s):\n%s\t\t%s\n" % (HELPER, ", ".join(cids), body_block, RAISE) +
             "\treturn %s\n" % call)
+
+
+# ------------------------------------------------------------------------------------------------------------------
+# D composed over a whole spec AST (spec/dsl_ref.py form): used by the bounded translation-validation stand-in and
+# by replays (real generator output vs D(ast), compared as Python ASTs)
+
+def spec_term(t):
+    if t[0] == "id":
+        return t[1]
+    if t[0] == "lit":
+        return repr(t[1])
+    return "(" + "".join(spec_term(x) + ", " for x in t[1]) + ")"
+
+
+_OP = {"==": "EQ", "!=": "NE", ">": "GT", "<": "LT", ">=": "GE", "<=": "LE", "in": "IN", "not_in": "NOT_IN"}
+
+
+def spec_pred(p):
+    if p[0] == "cmp":
+        return "(" + compare(_OP[p[1]], spec_term(p[2]), spec_term(p[3])) + ")"
+    if p[0] == "not":
+        return "(" + boolean("NOT", spec_pred(p[1])) + ")"
+    return "(" + boolean(p[0].upper(), spec_pred(p[1]), spec_pred(p[2])) + ")"
+
+
+def spec_cond(c, depth):
+    if c[0] == "return":
+        return group_return(depth, [(v, w) for v, w in c[1]])
+    out = ind(depth) + "if %s:\n" % spec_pred(c[1]) + spec_cond(c[2], depth + 1)
+    tl = c[3]
+    while tl is not None:
+        if tl[0] == "else":
+            out += ind(depth) + "else:\n" + spec_cond(tl[1], depth + 1)
+            break
+        out += ind(depth) + "elif %s:\n" % spec_pred(tl[1]) + spec_cond(tl[2], depth + 1)
+        tl = tl[3]
+    return out
+
+
+def full_module(exp, exposed):
+    from . import dsl_ref
+    spl, ids = dsl_ref.fields(exp)
+    body = spec_cond(exp["body"], 1 if exposed else 2)
+    return module(exp["id"], spl, ids, key_expr(exp["salt"], spl), body, None, exposed)
